@@ -314,7 +314,7 @@ pub fn parse_tls_extension_ec_point_formats_content(i: &[u8]) -> IResult<&[u8], 
 }
 
 pub fn parse_tls_extension_ec_point_formats(i: &[u8]) -> IResult<&[u8], TlsExtension> {
-    let (i, _) = tag([0x00, 0x0a])(i)?;
+    let (i, _) = tag([0x00, 0x0b])(i)?;
     map_parser(
         length_data(be_u16),
         parse_tls_extension_ec_point_formats_content,
@@ -341,7 +341,7 @@ pub fn parse_tls_extension_heartbeat_content(i: &[u8]) -> IResult<&[u8], TlsExte
 }
 
 pub fn parse_tls_extension_heartbeat(i: &[u8]) -> IResult<&[u8], TlsExtension> {
-    let (i, _) = tag([0x00, 0x0d])(i)?;
+    let (i, _) = tag([0x00, 0x0f])(i)?;
     let (i, ext_len) = verify(be_u16, |&n| n == 1)(i)?;
     map_parser(take(ext_len), parse_tls_extension_heartbeat_content)(i)
 }
@@ -458,7 +458,7 @@ fn parse_tls_extension_pre_shared_key_content(
 }
 
 pub fn parse_tls_extension_pre_shared_key(i: &[u8]) -> IResult<&[u8], TlsExtension> {
-    let (i, _) = tag([0x00, 0x28])(i)?;
+    let (i, _) = tag([0x00, 0x29])(i)?;
     let (i, ext_len) = be_u16(i)?;
     map_parser(take(ext_len), move |d| {
         parse_tls_extension_pre_shared_key_content(d, ext_len)
